@@ -124,6 +124,16 @@ func referenceLicenseAddValue(files []licFile, threshold float64) (*lc.License, 
 	return lc.VerifWrap(b, threshold), nil
 }
 
+// renderOrdered keeps the order in which the matches were returned (License.MultipleMatch sorts its result by a total
+// order over confidence, name, offset and extent, so the order is part of the result).
+func renderOrdered(ms stringclassifier.Matches) string {
+	var out []string
+	for _, m := range ms {
+		out = append(out, fmt.Sprintf("{%s %b %d %d}", m.Name, m.Confidence, m.Offset, m.Extent))
+	}
+	return strings.Join(out, " ")
+}
+
 func renderMatches(ms stringclassifier.Matches) []string {
 	var out []string
 	for _, m := range ms {
